@@ -7,14 +7,26 @@ EXTENDS WriteBuffer, TLC, Json, IOUtils
 VARIABLE l
 Log == ndJsonDeserialize(IOEnv.TRACE)
 Ev == Log[l]
-Matches == /\ Len(buf') = Ev.buffered          \* buffered() after the call
-           /\ lastw' = Ev.w                    \* exactly these writeData() calls, in this order
-           /\ Ev.res = "ok"
+\* Acceptance is declarative (the property does not fix WHEN buffered bytes are written, only that every byte
+\* reaches the sink exactly once, in order, no later than the next flush, that the buffer never holds more than N
+\* bytes and that an oversized block is not kept in the buffer): the recorded writeData() calls w extend the sink,
+\* the sink stays a prefix of everything appended, what is not yet in the sink is what buffered() reports.
+IsPrefixSeq(p, t) == Len(p) <= Len(t) /\ SubSeq(t, 1, Len(p)) = p
+Step(d, isFlush) ==
+   /\ appended' = appended \o d
+   /\ lastw' = Ev.w
+   /\ sink' = sink \o Flat(Ev.w)
+   /\ IsPrefixSeq(sink', appended')
+   /\ buf' = SubSeq(appended', Len(sink') + 1, Len(appended'))
+   /\ Len(buf') = Ev.buffered /\ Len(buf') <= n
+   /\ (isFlush => buf' = <<>>)
+   /\ (Len(d) >= n => buf' = <<>>)                 \* oversized: passed through after flushing what was buffered
+   /\ Ev.res = "ok"
+   /\ UNCHANGED n
 TInit == /\ l = 1 /\ n = 0 /\ buf = <<>> /\ sink = <<>> /\ appended = <<>> /\ lastw = <<>>
 TNext == /\ l <= Len(Log) /\ l' = l + 1
-         /\ \/ Ev.e = "Append" /\ Len(Ev.d) > 0 /\ AppendData(Ev.d) /\ Matches
-            \/ Ev.e = "Append" /\ Len(Ev.d) = 0 /\ AppendEmpty /\ Matches
-            \/ Ev.e = "Flush"  /\ FlushBuf /\ Matches
+         /\ \/ Ev.e = "Append" /\ Step(Ev.d, FALSE)
+            \/ Ev.e = "Flush"  /\ Step(<<>>, TRUE)
             \/ Ev.e = "Reset"  /\ n' = Ev.N /\ buf' = <<>> /\ sink' = <<>> /\ appended' = <<>> /\ lastw' = <<>>
 TSpec == TInit /\ [][TNext]_<<vars, l>>
 Accepted == TLCGet("stats").diameter = Len(Log) + 1
